@@ -35,6 +35,9 @@ where
                     data_centers: new_data_centers,
                 } => {
                     let mut new_total = 0;
+                    // The update describes the complete layout, data centers which are no
+                    // longer part of it have no live nodes left and must be forgotten.
+                    data_centers.clear();
                     for (name, nodes) in new_data_centers {
                         new_total += nodes.len();
                         data_centers.insert(name, NodeCycler::from(nodes));
